@@ -446,7 +446,7 @@ theorem IovInv.of_world {w w' : World} {v : Iov} (h : IovInv w v)
     (hexts : ∀ b, (w.exts.getD b []).length ≤ (w'.exts.getD b []).length) (hnext : w.next ≤ w'.next) :
     IovInv w' v :=
   { slices_ok := fun s hs => (h.slices_ok s hs).of_world hexts hnext
-    ordered := h.ordered, size_eq := h.size_eq, anchors_pos := h.anchors_pos, anchors_sum := h.anchors_sum
+    ordered := h.ordered, size_eq := h.size_eq, anchors_sum := h.anchors_sum
     cache_fresh := fun ca hca => Nat.lt_of_lt_of_le (h.cache_fresh ca hca) hnext
     br_ok := h.br_ok, br_sorted := h.br_sorted }
 
@@ -529,8 +529,9 @@ theorem push_slice_inv (w0 w : World) (v : Iov) (s : Slice) (anchors' : List Anc
     (hinv : IovInv w0 v) (hs : SliceOk w arena' s)
     (hold : ∀ x ∈ v.slices, SliceOk w arena' x)
     (hcache : ∀ ca, arena'.cache = some ca → ca.chunk < w.next)
-    (hord : ∀ x ∈ v.slices, ∀ c, x.region = .chunk c → s.region = .chunk c → x.off + x.len ≤ s.off)
-    (hapos : ∀ a ∈ anchors', 0 < a.count) (hasum : sumCounts anchors' = v.slices.length + 1) :
+    (hord : ∀ x ∈ v.slices, ∀ c, x.region = .chunk c → s.region = .chunk c →
+      x.off + x.len ≤ s.off ∨ s.off + s.len ≤ x.off)
+    (hasum : sumCounts anchors' = v.slices.length + 1) :
     IovInv w { v with slices := v.slices ++ [s], anchors := anchors',
                       logicalSize := v.logicalSize + s.len, arena := arena' } :=
   { slices_ok := by
@@ -551,7 +552,6 @@ theorem push_slice_inv (w0 w : World) (v : Iov) (s : Slice) (anchors' : List Anc
       have := hinv.size_eq
       simp only [sumLens_append, sumLens_cons, sumLens_nil]
       omega
-    anchors_pos := hapos
     anchors_sum := by simp [hasum]
     cache_fresh := hcache
     br_ok := fun e he => (hinv.br_ok e he).of_append [s] rfl rfl rfl
@@ -573,9 +573,8 @@ theorem pushBorrowedSlice_eq (v : Iov) (s : Slice) (h : s.len ≠ 0) :
   rw [if_neg h]
   rfl
 
-theorem pushBorrowed_anchors (anchors : List Anchor) (n : Nat) (hpos : ∀ a ∈ anchors, 0 < a.count)
-    (hsum : sumCounts anchors = n) :
-    (∀ a ∈ pbAnchors anchors, 0 < a.count) ∧ sumCounts (pbAnchors anchors) = n + 1 := by
+theorem pushBorrowed_anchors (anchors : List Anchor) (n : Nat) (hsum : sumCounts anchors = n) :
+    (∀ a, (pbAnchors anchors).getLast? = some a → 0 < a.count) ∧ sumCounts (pbAnchors anchors) = n + 1 := by
   rcases List.eq_nil_or_concat anchors with hnil | ⟨anc, a, hanc⟩
   · subst hnil
     simp only [sumCounts_nil] at hsum
@@ -593,10 +592,45 @@ theorem pushBorrowed_anchors (anchors : List Anchor) (n : Nat) (hpos : ∀ a ∈
     simp only [sumCounts_append, sumCounts_cons, sumCounts_nil] at hsum
     refine ⟨?_, by simp only [sumCounts_append, sumCounts_cons, sumCounts_nil]; omega⟩
     intro x hx
-    simp only [List.mem_append, List.mem_singleton] at hx
-    rcases hx with hx | rfl
-    · exact hpos x (by simp [hx])
-    · simp
+    simp only [List.getLast?_append, List.getLast?_singleton, Option.some_or, Option.some.injEq] at hx
+    subst hx
+    simp
+
+/-- `push_borrowed` of a valid, non-empty slice that overlaps no slice already in the iovec (a caller
+slice, or arena memory the iovec does not reference yet) appends exactly its bytes. -/
+theorem World.pushBorrowed_spec' (w : World) (i : Nat) (v : Iov) (s : Slice) (hv : w.iov i = some v)
+    (hinv : IovInv w v) (hs : SliceOk w v.arena s)
+    (hd : ∀ x ∈ v.slices, ∀ c, x.region = .chunk c → s.region = .chunk c →
+      x.off + x.len ≤ s.off ∨ s.off + s.len ≤ x.off) :
+    ∃ v', w.pushBorrowed i s = some (w.setIov i (some v')) ∧ IovInv w v' ∧
+      absCells w v' = absCells w v ++ (w.sliceBytes s).map Cell.byte ∧
+      v'.backrefs = v.backrefs ∧ v'.arena = v.arena ∧ v'.consumedSize = v.consumedSize ∧
+      v'.logicalSize = v.logicalSize + s.len ∧ w.flat v'.slices = w.flat v.slices ++ w.sliceBytes s ∧
+      v'.consumedSlices = v.consumedSlices ∧ (∀ j, j < v.slices.length → v'.slices.take j = v.slices.take j) ∧
+      Iov.optimize { v with slices := v.slices ++ [s], anchors := pbAnchors v.anchors,
+                            logicalSize := v.logicalSize + s.len } = some v' := by
+  unfold World.pushBorrowed
+  rw [hv]
+  simp only
+  have hpos := hs.pos
+  rw [if_neg (by omega)]
+  rw [pushBorrowedSlice_eq v s (by omega)]
+  obtain ⟨hapos, hasum⟩ := pushBorrowed_anchors v.anchors v.slices.length hinv.anchors_sum
+  generalize pbAnchors v.anchors = anchors' at hapos hasum ⊢
+  have h1 := push_slice_inv w w v s anchors' v.arena hinv hs hinv.slices_ok hinv.cache_fresh hd hasum
+  have h1' : IovInv w { v with slices := v.slices ++ [s], anchors := anchors', logicalSize := v.logicalSize + s.len } := h1
+  obtain ⟨v2, hv2⟩ := optimize_some { v with slices := v.slices ++ [s], anchors := anchors', logicalSize := v.logicalSize + s.len }
+    hapos (by intro _ hn; simp only at hn; rw [hn] at hasum; simp at hasum)
+  rw [hv2]
+  obtain ⟨hinv2, hflat2, hbr2, hls2, hcs2, hcn2, har2⟩ := optimize_inv w _ v2 h1'
+    (by intro e he; have := (hinv.br_ok e he).idx_lt; simp only [List.length_append, List.length_singleton]; omega) hv2
+  refine ⟨v2, rfl, hinv2, ?_, hbr2, har2, hcs2, hls2, ?_, hcn2, ?_, rfl⟩
+  · apply absCells_push hinv _ _ hbr2 hcs2
+    rw [hflat2]; simp
+  · rw [hflat2]; simp
+  · intro j hj
+    rw [optimize_take _ v2 hv2 j (by show j + 2 ≤ (v.slices ++ [_]).length; rw [List.length_append, List.length_singleton]; exact Nat.add_le_add_right hj 1)]
+    exact List.take_append_of_le_length (Nat.le_of_lt hj)
 
 /-- `push_borrowed` of a valid, non-empty caller slice appends exactly its bytes. -/
 theorem World.pushBorrowed_spec (w : World) (i : Nat) (v : Iov) (s : Slice) (hv : w.iov i = some v)
@@ -606,30 +640,10 @@ theorem World.pushBorrowed_spec (w : World) (i : Nat) (v : Iov) (s : Slice) (hv 
       v'.backrefs = v.backrefs ∧ v'.arena = v.arena ∧ v'.consumedSize = v.consumedSize ∧
       v'.logicalSize = v.logicalSize + s.len ∧ w.flat v'.slices = w.flat v.slices ++ w.sliceBytes s ∧
       v'.consumedSlices = v.consumedSlices ∧ (∀ j, j < v.slices.length → v'.slices.take j = v.slices.take j) := by
-  unfold World.pushBorrowed
-  rw [hv]
-  simp only
-  have hpos := hs.pos
-  rw [if_neg (by omega)]
-  rw [pushBorrowedSlice_eq v s (by omega)]
-  obtain ⟨hapos, hasum⟩ := pushBorrowed_anchors v.anchors v.slices.length hinv.anchors_pos hinv.anchors_sum
-  generalize pbAnchors v.anchors = anchors' at hapos hasum ⊢
   obtain ⟨b, hb⟩ := hext
-  have h1 := push_slice_inv w w v s anchors' v.arena hinv hs hinv.slices_ok hinv.cache_fresh
-    (by intro x _ c _ hc; rw [hb] at hc; cases hc) hapos hasum
-  have h1' : IovInv w { v with slices := v.slices ++ [s], anchors := anchors', logicalSize := v.logicalSize + s.len } := h1
-  obtain ⟨v2, hv2⟩ := optimize_some { v with slices := v.slices ++ [s], anchors := anchors', logicalSize := v.logicalSize + s.len }
-    hapos (by intro _ hn; simp only at hn; rw [hn] at hasum; simp at hasum)
-  rw [hv2]
-  obtain ⟨hinv2, hflat2, hbr2, hls2, hcs2, hcn2, har2⟩ := optimize_inv w _ v2 h1'
-    (by intro e he; have := (hinv.br_ok e he).idx_lt; simp only [List.length_append, List.length_singleton]; omega) hv2
-  refine ⟨v2, rfl, hinv2, ?_, hbr2, har2, hcs2, hls2, ?_, hcn2, ?_⟩
-  · apply absCells_push hinv _ _ hbr2 hcs2
-    rw [hflat2]; simp
-  · rw [hflat2]; simp
-  · intro j hj
-    rw [optimize_take _ v2 hv2 j (by show j + 2 ≤ (v.slices ++ [_]).length; rw [List.length_append, List.length_singleton]; exact Nat.add_le_add_right hj 1)]
-    exact List.take_append_of_le_length (Nat.le_of_lt hj)
+  obtain ⟨v', h1, h2, h3, h4, h5, h6, h7, h8, h9, h10, _⟩ := World.pushBorrowed_spec' w i v s hv hinv hs
+    (by intro x _ c _ hc; rw [hb] at hc; cases hc)
+  exact ⟨v', h1, h2, h3, h4, h5, h6, h7, h8, h9, h10⟩
 
 /-! ### Consumer side -/
 
@@ -823,7 +837,6 @@ theorem IovInv.empty (w : World) (a : Arena) (h : ∀ ca, a.cache = some ca → 
   { slices_ok := by intro s hs; cases hs
     ordered := List.Pairwise.nil
     size_eq := rfl
-    anchors_pos := by intro a ha; cases ha
     anchors_sum := rfl
     cache_fresh := h
     br_ok := by intro e he; cases he
@@ -935,9 +948,9 @@ def pcAnchors (anchors : List Anchor) (chunk : Nat) : List Anchor :=
   | some a => anchors1 ++ [a]
   | none => anchors1
 
-theorem pcAnchors_spec (anchors : List Anchor) (chunk n : Nat) (hpos : ∀ a ∈ anchors, 0 < a.count)
-    (hsum : sumCounts anchors = n) :
-    (∀ a ∈ pcAnchors anchors chunk, 0 < a.count) ∧ sumCounts (pcAnchors anchors chunk) = n + 1 := by
+theorem pcAnchors_spec (anchors : List Anchor) (chunk n : Nat) (hsum : sumCounts anchors = n) :
+    (∀ a, (pcAnchors anchors chunk).getLast? = some a → 0 < a.count) ∧
+      sumCounts (pcAnchors anchors chunk) = n + 1 := by
   rcases List.eq_nil_or_concat anchors with hnil | ⟨anc, a, hanc⟩
   · subst hnil
     simp only [sumCounts_nil] at hsum
@@ -955,10 +968,9 @@ theorem pcAnchors_spec (anchors : List Anchor) (chunk n : Nat) (hpos : ∀ a ∈
       rw [e]
       refine ⟨?_, by simp only [sumCounts_append, sumCounts_cons, sumCounts_nil]; omega⟩
       intro x hx
-      simp only [List.mem_append, List.mem_singleton] at hx
-      rcases hx with hx | rfl
-      · exact hpos x (by simp [hx])
-      · simp
+      simp only [List.getLast?_append, List.getLast?_singleton, Option.some_or, Option.some.injEq] at hx
+      subst hx
+      simp
     · have e : pcAnchors (anc ++ [a]) chunk = anc ++ [a] ++ [⟨1, some chunk⟩] := by
         unfold pcAnchors
         simp only [hl, mergeRefOrCreate, hc, if_false]
@@ -966,10 +978,9 @@ theorem pcAnchors_spec (anchors : List Anchor) (chunk n : Nat) (hpos : ∀ a ∈
       rw [e]
       refine ⟨?_, by simp only [sumCounts_append, sumCounts_cons, sumCounts_nil]; omega⟩
       intro x hx
-      simp only [List.mem_append, List.mem_singleton] at hx
-      rcases hx with hx | rfl
-      · exact hpos x (by simpa using hx)
-      · simp
+      simp only [List.getLast?_append, List.getLast?_singleton, Option.some_or, Option.some.injEq] at hx
+      subst hx
+      simp
 
 theorem pushCopy_eq (w : World) (i : Nat) (v : Iov) (src : List UInt8) (hv : w.iov i = some v) (hne : src ≠ []) :
     w.pushCopy i src =
@@ -1033,7 +1044,7 @@ theorem World.pushCopy_spec (w : World) (i : Nat) (v : Iov) (src : List UInt8) (
   generalize alloc w.tun v.arena w.next src.length = al at hnext hchunk hcache hord ⊢
   obtain ⟨arena', next', chunk, off⟩ := al
   simp only at hnext hchunk hcache hord ⊢
-  obtain ⟨hapos, hasum⟩ := pcAnchors_spec v.anchors chunk v.slices.length hinv.anchors_pos hinv.anchors_sum
+  obtain ⟨hapos, hasum⟩ := pcAnchors_spec v.anchors chunk v.slices.length hinv.anchors_sum
   generalize pcAnchors v.anchors chunk = anchors' at hapos hasum ⊢
   have hane : anchors'.isEmpty = false := by
     cases anchors' with
@@ -1065,10 +1076,10 @@ theorem World.pushCopy_spec (w : World) (i : Nat) (v : Iov) (src : List UInt8) (
     (by intro ca' hca'; obtain ⟨e1, _⟩ := hcache ca' hca'; rw [e1]; exact hchunk)
     (by intro x hx c hc hc2
         simp only [Region.chunk.injEq] at hc2
-        exact hord x hx c hc hc2.symm)
-    hapos hasum
+        exact Or.inl (hord x hx c hc hc2.symm))
+    hasum
   obtain ⟨v2, hv2⟩ := optimize_some _
-    (show ∀ a ∈ ({ v with slices := v.slices ++ [⟨.chunk chunk, off, src.length⟩], anchors := anchors', logicalSize := v.logicalSize + src.length, arena := arena' } : Iov).anchors, 0 < a.count from hapos) (by intro _ hn; simp only at hn; rw [hn] at hasum; simp at hasum)
+    (show ∀ a, ({ v with slices := v.slices ++ [⟨.chunk chunk, off, src.length⟩], anchors := anchors', logicalSize := v.logicalSize + src.length, arena := arena' } : Iov).anchors.getLast? = some a → 0 < a.count from hapos) (by intro _ hn; simp only at hn; rw [hn] at hasum; simp at hasum)
   rw [hv2]
   obtain ⟨hinv2, hflat2, hbr2, hls2, hcs2, hcn2, har2⟩ := optimize_inv w1 _ v2 h1
     (by intro e he; have := (hinv.br_ok e he).idx_lt; simp only [List.length_append, List.length_singleton]; omega) hv2
@@ -1520,7 +1531,7 @@ theorem World.registerPatch_spec (w : World) (i : Nat) (v : Iov) (pat : List UIn
   · -- invariant
     apply IovInv.setIov
     refine
-      { slices_ok := h3.slices_ok, ordered := h3.ordered, size_eq := h3.size_eq, anchors_pos := h3.anchors_pos,
+      { slices_ok := h3.slices_ok, ordered := h3.ordered, size_eq := h3.size_eq,
         anchors_sum := h3.anchors_sum, cache_fresh := h3.cache_fresh, br_ok := ?_, br_sorted := ?_ }
     · intro e he
       simp only [List.mem_append, List.mem_singleton] at he
@@ -1822,7 +1833,7 @@ theorem World.backfill_spec (w : World) (i : Nat) (v : Iov) (e : Nat × BackrefI
     rfl
   have hinv' : IovInv wf v' :=
     { slices_ok := fun s hs => (hinv.slices_ok s hs).of_world (fun _ => Nat.le_refl _) (Nat.le_refl _)
-      ordered := hinv.ordered, size_eq := hinv.size_eq, anchors_pos := hinv.anchors_pos
+      ordered := hinv.ordered, size_eq := hinv.size_eq
       anchors_sum := hinv.anchors_sum, cache_fresh := hinv.cache_fresh
       br_ok := fun x hx => (hinv.br_ok x (List.mem_filter.mp hx).1).congr rfl rfl rfl
       br_sorted := hinv.br_sorted.filter _ }
@@ -1838,7 +1849,7 @@ theorem World.backfill_spec (w : World) (i : Nat) (v : Iov) (e : Nat × BackrefI
     apply sliceBytes_write_disjoint w wf k (target.off + info.begin) src x rfl rfl
     intro c hc
     by_cases hck : c = k
-    · right; left
+    · right
       have := hpre x hx target (by simp) c hc (by rw [hreg, hck])
       omega
     · left; exact hck
@@ -1857,7 +1868,7 @@ theorem World.backfill_spec (w : World) (i : Nat) (v : Iov) (e : Nat × BackrefI
       apply sliceBytes_write_disjoint w wf k (target.off + info.begin) src x rfl rfl
       intro c hc
       by_cases hck : c = k
-      · right; left
+      · right
         have := hpre x hx target (by simp) c hc (by rw [hreg, hck])
         omega
       · left; exact hck
@@ -1867,7 +1878,7 @@ theorem World.backfill_spec (w : World) (i : Nat) (v : Iov) (e : Nat × BackrefI
       apply sliceBytes_write_disjoint w wf k (target.off + info.begin) src x rfl rfl
       intro c hc
       by_cases hck : c = k
-      · right; right
+      · right
         have := hpost x hx k hreg (by rw [hc, hck])
         omega
       · left; exact hck
@@ -2149,7 +2160,7 @@ theorem IovInv.set_arena {w w' : World} {v : Iov} (h : IovInv w v) (a' : Arena)
         ext := fun b hb => by rw [hexts]; exact (h.slices_ok s hs).ext b hb
         chunk := fun c hc => ⟨Nat.lt_of_lt_of_le ((h.slices_ok s hs).chunk c hc).1 hnext,
           fun ca' hca' hcc => (hcache ca' hca').2 s hs c hc hcc⟩ }
-    ordered := h.ordered, size_eq := h.size_eq, anchors_pos := h.anchors_pos, anchors_sum := h.anchors_sum
+    ordered := h.ordered, size_eq := h.size_eq, anchors_sum := h.anchors_sum
     cache_fresh := fun ca' hca' => (hcache ca' hca').1
     br_ok := fun e he => (h.br_ok e he).congr rfl rfl rfl
     br_sorted := h.br_sorted }
